@@ -4,6 +4,7 @@ import Req.Pool.CancelPool
 import Req.Pool.CancelPoolLane
 import Req.Pool.CancelH2
 import Req.Pool.CancelErr
+import Req.Pool.CancelH3
 /-!
 Driver lanes of C08.
 
@@ -31,6 +32,9 @@ Driver lanes of C08.
   replay the trace (`ev:<Ev>`, `act:<Act>`, `settle` = run the internal steps to quiescence), cancel,
   explore EVERY maximal internal run; answer = the observed outcome if the model reaches it, else
   the first outcome it does reach.
+* `c08h3life <hasBody> <trace> <kind> <obs>` — the HTTP/3 lifecycle model (`CancelH3`): replay the trace
+  (`ev:<Ev>`, `act:<Act>`), cancel, explore EVERY maximal internal run; answer = the observed outcome
+  (`ret=…;read=…;closes=…;upl=…;rst=…;stop=…`, `?` = not observed) if the model reaches it, else the first outcome it does reach.
 * `c08errclass <src> <wrappers>` — `CancelErr.rel` seen through the wrappers (`u`rl.Error,
   `n`othingWrittenError, `r`eadFromServer, `b`roken conn; `-` = none): `c=<0|1> d=<0|1> t=<0|1>`.
 -/
@@ -359,6 +363,87 @@ def laneH2Life : List String → String
 
 end H2
 
+/-! ### HTTP/3 lifecycle lane -/
+section H3
+
+def parseH3Ev (s : String) : Option Req.CancelH3.Ev :=
+  if s == "hsDone" then some .hsDone else if s == "streamOpen" then some .streamOpen
+  else if s == "credit" then some .credit else if s == "peerHeaders" then some .peerHeaders
+  else if s == "peerEnd" then some .peerEnd else if s == "peerReset" then some .peerReset
+  else if s == "callerClose" then some .callerClose else if s == "callerEOF" then some .callerEOF else none
+
+def h3ActName : Req.CancelH3.Act → String
+  | .cHsCancel => "cHsCancel" | .cOpenCancel => "cOpenCancel" | .cSendHdr => "cSendHdr"
+  | .cRespOk => "cRespOk" | .cRespFail => "cRespFail" | .cFailSig => "cFailSig" | .cFailJoin => "cFailJoin"
+  | .cBodyReadFail => "cBodyReadFail" | .wFireW => "wFireW" | .wFireR => "wFireR" | .wExit => "wExit"
+  | .uRead => "uRead" | .uEOF => "uEOF" | .uWriteFail => "uWriteFail" | .uClose => "uClose" | .uFin => "uFin"
+
+def parseH3Act (s : String) : Option Req.CancelH3.Act :=
+  Req.CancelH3.allActs.find? (fun a => h3ActName a == s)
+
+def h3Tok (s : Req.CancelH3.St) (tok : String) : Option Req.CancelH3.St :=
+  match tok.splitOn ":" with
+  | ["ev", n] => do
+    let e ← parseH3Ev n
+    if Req.CancelH3.evGuard s e then some (Req.CancelH3.evApply s e) else none
+  | ["act", n] => do
+    let a ← parseH3Act n
+    if Req.CancelH3.guard s a then some (Req.CancelH3.apply s a) else none
+  | _ => none
+
+def h3ErrClass (kind : CtxErr) : Req.CancelH3.Err → String
+  | .ctx e => if e == kind then (if kind == .canceled then "canceled" else "deadline") else "other"
+  | .h3cancel => "h3cancel"
+  | .peer => "other"
+
+/-- what the lanes can see of a final state: what the call returned, what the pending body read
+returned, Close calls on the request body, whether the upload goroutine is gone, whether the peer
+saw the send side reset -/
+def h3Outcome (kind : CtxErr) (t : Req.CancelH3.St) : String :=
+  let ret := match t.cpc with
+    | .returned .resp => "resp"
+    | .returned (.err e) => h3ErrClass kind e
+    | _ => "hung"
+  let read := match t.readRes with
+    | some e => h3ErrClass kind e
+    | none => "-"
+  let upl := if t.upl == .none || t.upl == .done then "gone" else "parked"
+  "ret=" ++ ret ++ ";read=" ++ read ++ ";closes=" ++ toString t.closes ++ ";upl=" ++ upl ++
+  ";rst=" ++ (if t.send == .cancelled then "1" else "0") ++
+  ";stop=" ++ (if t.recv == .cancelled then "1" else "0")
+
+/-- field-wise comparison; a `?` in the observation = the lane could not see that field -/
+def h3Matches (obs out : String) : Bool :=
+  let o := obs.splitOn ";"
+  let m := out.splitOn ";"
+  o.length == m.length &&
+  (o.zip m).all fun (a, b) => a == b ||
+    (match a.splitOn "=", b.splitOn "=" with
+     | [ka, va], [kb, _] => ka == kb && va == "?"
+     | _, _ => false)
+
+def laneH3Life : List String → String
+  | [hb, tr, kind, obs] =>
+    match bit hb with
+    | some hasBody =>
+      let k : Option CtxErr := if kind == "canceled" then some .canceled
+        else if kind == "deadline" then some .deadline else none
+      let toks := if tr == "-" || tr == "" then [] else tr.splitOn ","
+      match k, toks.foldlM h3Tok (Req.CancelH3.init hasBody) with
+      | some k, some s =>
+        let s0 := if Req.CancelH3.evGuard s (.cancel k) then Req.CancelH3.evApply s (.cancel k) else s
+        let outs := (Req.CancelH3.finals 20 s0).map (h3Outcome k)
+        if outs.any (h3Matches obs) then obs
+        else match outs with
+          | o :: _ => o
+          | [] => "no-outcome"
+      | none, _ => "bad-op"
+      | _, none => "bad-trace"
+    | none => "bad-op"
+  | _ => "bad-op"
+
+end H3
+
 def parseSrc (s : String) : Option Req.CancelErr.Src :=
   if s == "ctxCanceled" then some .ctxCanceled else if s == "ctxDeadline" then some .ctxDeadline
   else if s == "respHeaderTimeout" then some .respHeaderTimeout
@@ -386,6 +471,7 @@ def lanes : List (String × (List String → String)) := [
   ("c08h2cleanup", laneH2Cleanup),
   ("c08h2flow", laneH2Flow),
   ("c08h2life", laneH2Life),
+  ("c08h3life", laneH3Life),
   ("c08snap", laneSnap),
   ("c08pool", lanePool),
   ("c08maperr", laneMapErr),
